@@ -121,6 +121,16 @@ CHECKS = {
              'the program then produces its native output; vard equals the program\'s own {:?} lines. Held after the red-zone fix commit.',
         note='Trusted: raw ptrace register reads and /proc by the monitor, the log the called functions write, the native run.',
         ref='DESIGN.md §4 C16'),
+    'C18': dict(
+        technique='runtime monitoring: conservation checker (stops reported in library code = the library\'s own hit counter = calls made after the request) with relocated addresses, arguments, backtraces and the sharedlib list compared against /proc/pid/maps + nm',
+        text='A generated cdylib is linked at start-up or loaded two or three times with generated dlopen/dlclose sequences by PIE and non-PIE '
+             'hosts; function and line breakpoints on library code are requested before start, after the load, while the library is unloaded, '
+             'and again after an earlier load; every stop in library code must lie inside the relocated function, show the argument the host '
+             'passed, unwind through the library into the host frames, and the stops must account for every call made after the request; '
+             'sharedlib info must equal the mapped executable objects. Held except the known finding (no re-arming after dlclose + dlopen '
+             'without a new request); non-PIE after the fix commit.',
+        note='Trusted: /proc/<pid>/maps, nm symbol values and sizes, the library\'s SeqCst hit counter, the native run.',
+        ref='DESIGN.md §4 C18'),
     'C06': dict(
         technique='runtime monitoring: structural comparison of the debugger\'s Value trees with the debuggee\'s own canonical self-description (reference model = safe Rust in the program)',
         text='Generated programs hold ~40 variables each (locals, statics, thread-locals, arguments) from a recursive type grammar with boundary '
